@@ -63,13 +63,16 @@ Return(st1, id, t) ==
 \* config.py:41: `pre_evaluate = copy.deepcopy(config_dict)`.  copy._reconstruct restores the state of a container
 \* and then attaches the (already copied) children through the normal mutators (composed.py:360-368): every child is
 \* adopted again by its parent, i.e. inherited flags are re-derived top-down from the explicit flags of the ancestors.
-RECURSIVE DeepCopy(_)
-DeepCopy(n) ==
+\* (That was the reconstruction protocol before the C19 repair; spec/AyCopy.tla models both protocols step by step.
+\*  Since then the state carries the children and no mutator takes part: the copy equals the original, flags included.)
+RECURSIVE DeepCopyReadopting(_)
+DeepCopyReadopting(n) ==
     IF ~IsComposed(n) THEN n
     ELSE LET F[i \in 0..Len(n.ch)] ==
                IF i = 0 THEN [n EXCEPT !.ch = <<>>]
-               ELSE SetChild(F[i-1], IF IsList(n) THEN IKey(i - 1) ELSE n.ch[i][1], DeepCopy(n.ch[i][2]))
+               ELSE SetChild(F[i-1], IF IsList(n) THEN IKey(i - 1) ELSE n.ch[i][1], DeepCopyReadopting(n.ch[i][2]))
          IN F[Len(n.ch)]
+DeepCopy(n) == IF Mut("CopyReadopts") THEN DeepCopyReadopting(n) ELSE n
 
 \* EvalContext.evaluate on a given working tree
 StartOn(t) ==
